@@ -142,11 +142,10 @@ def decodeField : FTy → Item → Option Val
   | .files, .files l => some (.seq l.reverse)        -- `SeqAccess` pops from the back of the group
   | _, _ => none
 
-/-- an unknown field is skipped through `deserialize_any`: a group that is not exactly one file is refused even then -/
+/-- an unknown field is skipped whatever it holds (`deserialize_ignored_any` = `visit_unit`, fix 693709b; before it a group that was not
+    exactly one file was refused even then) -/
 def ignorable : Item → Bool
-  | .text _ => true
-  | .files [_] => true
-  | _ => false
+  | _ => true
 
 def loop (fields : List (Bytes × FTy × Bool)) : Nat → List Part → List (Bytes × Val) → Option (List (Bytes × Val))
   | 0, _, _ => none
